@@ -124,7 +124,13 @@ def run(chk, tier, seed):
                            "once with its layout, abandoned => count/debt/chain unchanged and never traced, completed => "
                            "+1 Gc with the written contents" % name, nv == 0, "%d VIOL lines" % nv)
         b_lines = [l for l in b_out.split("\n") if l.startswith("B ")]
-        okr, bad, _, raw = lc.run_model([plat_hdr], b_lines)
+        okr, bad, mflags, raw = lc.run_model([plat_hdr], b_lines)
+        # informational only: layout arithmetic is property C17's business, C18 compares the free
+        # layout with the layout the builder was observed to allocate
+        chk.cov["scenarios_whose_block_layout_differs_from_the_C17_model_%s" % name] = mflags.get("LAYOUTDIFF", 0)
+        if mflags.get("LAYOUTDIFF", 0):
+            chk.notes.append("%d scenarios (%s) allocate a block whose layout differs from the C17 model's prediction; "
+                             "see property C17" % (mflags.get("LAYOUTDIFF", 0), name))
         chk.correspondence("model reproduces events, metrics deltas, chain membership and contents of %d scenarios (%s)"
                            % (len(b_lines), name), okr and not bad and len(b_lines) > 1000,
                            "\n".join("%s :: %s" % (b_lines[i], m) for i, m in bad[:10]) + raw[-300:])
